@@ -318,6 +318,10 @@ func c09Seq(c *sim.Case) {
 	ho := genHistOpts(c)
 	ho.o.Logout = true
 	ops := genOps(c, c09Profile, 30)
+	if sim.Weighted(c, "idle-timeout", 2, 1) == 1 {
+		// sessions that are kept alive over several idle periods (advances by fractions of the limit)
+		ho.o.Idle = []time.Duration{30 * time.Second, 5 * time.Minute, 30 * time.Minute}[sim.Pick(c, "idle", 3)]
+	}
 	var mon *c09Mon
 	h1, h2 := runWithFaults(c, ho, ops, func() []monitor {
 		mon = &c09Mon{loggedOut: map[string]int{}}
